@@ -394,6 +394,36 @@ fn wire(q: &QosPolicies, e: Endianness) -> Result<QosPolicies, String> {
   QosPolicies::from_parameter_list(e, &map).map_err(|e| format!("{e:?}"))
 }
 
+/// What the peer sees: QoS after PL-CDR. The verdict computed on the received form must equal
+/// the verdict on the local form, on both sides.
+fn check_wire_pair(off: &QosPolicies, req: &QosPolicies, e: Endianness, o: &mut Outcome) {
+  match (wire(off, e), wire(req, e)) {
+    (Ok(off_w), Ok(req_w)) => {
+      // writer side sees (own offered, wire requested); reader side sees
+      // (wire offered, own requested)
+      check_pair(off, &req_w, o, "c10.wire-writer-side");
+      check_pair(&off_w, req, o, "c10.wire-reader-side");
+      let (bad, _, _) = model(off, req);
+      let w = off.compliance_failure_wrt(&req_w).is_none();
+      let r = off_w.compliance_failure_wrt(req).is_none();
+      if w != r {
+        o.violate(
+          "c10.sides-disagree",
+          "wire",
+          format!("writer side matched={w}, reader side matched={r}; model incompatible={bad:?}"),
+        );
+      }
+    }
+    (a, b) => {
+      o.violate(
+        "c10.wire-roundtrip-error",
+        "wire",
+        format!("QoS failed to cross the wire: {:?} {:?}", a.err(), b.err()),
+      );
+    }
+  }
+}
+
 pub fn run(scenario: u32, choices: &[u8], _strict: bool) -> Outcome {
   let mut c = Choices::new(choices);
   let mut o = Outcome::new();
@@ -413,31 +443,7 @@ pub fn run(scenario: u32, choices: &[u8], _strict: bool) -> Outcome {
         Endianness::LittleEndian
       };
       o.label(if e == Endianness::BigEndian { "BE" } else { "LE" });
-      match (wire(&off, e), wire(&req, e)) {
-        (Ok(off_w), Ok(req_w)) => {
-          // writer side sees (own offered, wire requested); reader side sees
-          // (wire offered, own requested)
-          check_pair(&off, &req_w, &mut o, "c10.wire-writer-side");
-          check_pair(&off_w, &req, &mut o, "c10.wire-reader-side");
-          let (bad, _, _) = model(&off, &req);
-          let w = off.compliance_failure_wrt(&req_w).is_none();
-          let r = off_w.compliance_failure_wrt(&req).is_none();
-          if w != r {
-            o.violate(
-              "c10.sides-disagree",
-              "wire",
-              format!("writer side matched={w}, reader side matched={r}; model incompatible={bad:?}"),
-            );
-          }
-        }
-        (a, b) => {
-          o.violate(
-            "c10.wire-roundtrip-error",
-            "wire",
-            format!("QoS failed to cross the wire: {:?} {:?}", a.err(), b.err()),
-          );
-        }
-      }
+      check_wire_pair(&off, &req, e, &mut o);
     }
     9999 => {
       // replay of one case of the exhaustive enumeration: choices = index (u64 BE)
@@ -448,6 +454,9 @@ pub fn run(scenario: u32, choices: &[u8], _strict: bool) -> Outcome {
       if i < singles.len() {
         o = Outcome::new();
         check_pair(&singles[i], &singles[j], &mut o, "c10");
+        if !o.is_violation() {
+          check_wire_pair(&singles[i], &singles[j], if (i + j) % 2 == 0 { Endianness::LittleEndian } else { Endianness::BigEndian }, &mut o);
+        }
         o.sample = format!("offered={:?} requested={:?}", singles[i], singles[j]);
       }
     }
@@ -555,6 +564,10 @@ pub fn exhaustive(_thorough: bool) -> ExhaustiveReport {
     for (j, req) in singles.iter().enumerate() {
       let mut o = Outcome::new();
       check_pair(off, req, &mut o, "c10");
+      if !o.is_violation() {
+        // and as the two peers see each other after discovery (alternating byte order)
+        check_wire_pair(off, req, if (i + j) % 2 == 0 { Endianness::LittleEndian } else { Endianness::BigEndian }, &mut o);
+      }
       rep.cases += 1;
       if o.nontrivial {
         rep.nontrivial += 1;
